@@ -14,12 +14,20 @@ def gen_consts(steps, runs, **over):
     c = dict(InCalls=[('ia1', 1), ('ia2', 2)], OutAliases=['oa1'], Vals=['v1'], Excs=['E1'],
              InFaults=['none', 'keyFail', 'prepFail'], OutFaults=['none'],
              Bodies=['plain', 'interrupt', 'forces', 'discards'], OutResults=[('val', 'v1'), ('int', 'BI')],
-             Ctl=['discard', 'force'], Ends=['ret', 'raise', 'interrupt'],
+             Ctl=['discard', 'force', 'disable'], Ends=['ret', 'raise', 'interrupt'],
              Classes=[K('K1'), K('K2', rate='frac')], Draws=['low', 'high'], SaveFails=[False, True],
              MaxSteps=steps, MaxRuns=runs, MaxRecs=runs, Modes=['same', 'free'],
              InOpts=[opts()], OutOpts=[opts()], PlayFaults=['unknown', 'raise'])
     c.update(over)
     return consts(**c)
+
+
+def outdiscard_consts(runs):
+    """a run that sends intercepted outputs and is then discarded (explicitly, or by a failing output data handler),
+    followed by runs that use the same output alias"""
+    return gen_consts(2, runs, InCalls=[('ia1', 1)], OutFaults=['none', 'prepFail'], Bodies=['plain'], Ctl=['discard'],
+                      Classes=[K('K1')], Draws=['low'], SaveFails=[False], Ends=['ret'], Modes=['same'], PlayFaults=[],
+                      InFaults=['none'])
 
 
 def run(rep, tier, seed):
@@ -48,7 +56,9 @@ def run(rep, tier, seed):
                                                 Classes=[K('K2', rate='frac')], SaveFails=[False], Ends=['ret'],
                                                 Modes=['free'], PlayFaults=['raise']),
                          cassettes=('memory', 'file'), n_conc=1, sample=2500, cap=4000)
+            chk.generate('outdiscard', outdiscard_consts(2), cassettes=('memory',), n_conc=1, all_paths=True, cap=20000)
         else:
+            chk.generate('outdiscard', outdiscard_consts(3), cassettes=('memory', 'file'), n_conc=1, all_paths=True, cap=150000)
             chk.check('chk', gen_consts(2, 2), invariants=INVS, timeout=3000)
             chk.check('chk3runs', gen_consts(1, 3), invariants=INVS, timeout=3000)
             chk.generate('gen', gen_consts(1, 2), cassettes=('memory', 'file', 's3'), n_conc=2, all_paths=True, cap=150000)
